@@ -2,7 +2,7 @@
 From Coq Require Import QArith ZArith List Arith Bool.
 Import ListNotations.
 From PD Require Import Model.Grid Model.MergeLoop Model.Locate Model.LocateSym Model.Overlap
-  Proofs.MergeLoop Proofs.Overlap Proofs.C02 Proofs.Components Proofs.LocateCart.
+  Proofs.MergeLoop Proofs.Overlap Proofs.C02 Proofs.Components Proofs.LocateCart Model.Label Proofs.LabelSpec Proofs.LabelUnique Proofs.LabelClients.
 Local Open Scope Q_scope.
 
 (* ---- the periodic merge loop, for ANY list of boundary edges between labels 0..n-1 ---- *)
@@ -85,6 +85,54 @@ Proof.
                                   (fun ax l h => edges_complete g img ax l h Hg)).
 Qed.
 Print Assumptions C02_edges_sound_complete.
+
+(* ---- the same WITHOUT the oracle premise: with the executable labelling Model/Label.v (proved to satisfy the
+   specification of scipy.ndimage.label; compared with scipy's label image inside Coq on every sample) ---- *)
+Theorem C02_label_meets_spec : forall g mask, length mask = length (all_cells (gshape g)) ->
+  LabelSpecImg (mk_limage (gshape g) (label (gshape g) mask)) /\
+  wf_img g (mk_limage (gshape g) (label (gshape g) mask)).
+Proof. intros g mask H. exact (conj (label_spec (gshape g) mask H) (label_wf g mask H)). Qed.
+Print Assumptions C02_label_meets_spec.
+
+(* any label image that is zero exactly off the mask, satisfies the specification and numbers components in raster
+   order IS the executable one: comparing scipy's labels with `label` checks scipy against its specification *)
+Theorem C02_label_unique : forall shape mask lab',
+  length mask = length (all_cells shape) -> length lab' = length mask ->
+  (forall c m, In (c, m) (combine (all_cells shape) mask) -> (lab_of (mk_limage shape lab') c = 0%nat <-> m = false)) ->
+  LabelSpecImg (mk_limage shape lab') -> rgs 0 lab' -> lab' = label shape mask.
+Proof. exact label_unique. Qed.
+Print Assumptions C02_label_unique.
+
+Theorem C02_cartesian_components_end_to_end : forall g mask, grid_ok g ->
+  length mask = length (all_cells (gshape g)) ->
+  let img := mk_limage (gshape g) (label (gshape g) mask) in
+  forall a b, In (a, true) (combine (all_cells (gshape g)) mask) -> In (b, true) (combine (all_cells (gshape g)) mask) ->
+  cl (final_state g img) (clab img a) = cl (final_state g img) (clab img b) <->
+  connT cell (mcells (gshape g) mask) face_adj (wrap_pair g) a b.
+Proof. exact locate_cart_components_mask. Qed.
+Print Assumptions C02_cartesian_components_end_to_end.
+
+Theorem C02_cartesian_volume_end_to_end : forall g mask, grid_ok g ->
+  length mask = length (all_cells (gshape g)) ->
+  let img := mk_limage (gshape g) (label (gshape g) mask) in
+  forall a comp, In a (mask_cells img) -> NoDup comp ->
+  (forall c, In c comp <-> In c (mask_cells img) /\ torus_conn g img a c) ->
+  mvol (final_state g img) (cl (final_state g img) (clab img a))
+  == cell_volume g * inject_Z (Z.of_nat (length comp)).
+Proof. exact locate_cart_volume_label. Qed.
+Print Assumptions C02_cartesian_volume_end_to_end.
+
+Theorem C02_cartesian_position_end_to_end : forall g mask, grid_ok g ->
+  length mask = length (all_cells (gshape g)) ->
+  let img := mk_limage (gshape g) (label (gshape g) mask) in
+  forall kappa, lift_ok kappa (edges g img) ->
+  exists t : nat -> nat -> Z, forall a ax comp, In a (mask_cells img) -> NoDup comp ->
+    (forall c, In c comp <-> In c (mask_cells img) /\ torus_conn g img a c) ->
+    let i := cl (final_state g img) (clab img a) in
+    mpos (final_state g img) i ax * inject_Z (Z.of_nat (length comp))
+    == lsum comp (fun c => coordQ c ax + (1 # 2) + inject_Z ((kappa (clab img c) ax + t i ax) * shapeN g ax)).
+Proof. exact locate_cart_position_label. Qed.
+Print Assumptions C02_cartesian_position_end_to_end.
 
 (* ---- returned droplets ---- *)
 Theorem C02_returned_do_not_overlap : forall D rad l i j,
